@@ -15,16 +15,16 @@ from ..core import MachineryError
 from ..fx import make_xknx, start_xknx, stop_xknx
 from ..vloop import virtual_world
 
-ADDR = [None, "1/1/1", "1/1/2", "1/2/1", "2/1/1", "i-verif-x", "i-verif-y"]   # index 0: individual destination
+ADDR = [None, "1/1/1", "1/1/2", "1/2/1", "2/1/1", "i-verif-x", "i-verif-y", "0/0/0"]   # index 0: individual destination; 7: the broadcast address (no device can have it)
 # filters with their denotation over ADDR (by hand, independent of AddressFilter)
 FILTERS = [("1/1/*", [1, 2]), ("1/*/*", [1, 2, 3]), ("*/1/1", [1, 4]), ("2/1/1", [4]), ("1/1/2-5", [2]), ("3/*/*", []),
-           ("i-verif-x", [5]), ("i-verif-*", [5, 6])]
+           ("i-verif-x", [5]), ("i-verif-*", [5, 6]), ("0/0/*", [7]), ("0-1/*/0-1", [1, 3, 7]), ("*/*/*", [1, 2, 3, 4, 7])]
 
 
 def run_hist(seed, n):
     from xknx.devices import Switch
     from xknx.dpt import DPTBinary
-    from xknx.telegram import AddressFilter, IndividualAddress, Telegram, TelegramDirection
+    from xknx.telegram import AddressFilter, GroupAddress, IndividualAddress, Telegram, TelegramDirection
     from xknx.telegram.address import parse_device_group_address
     from xknx.telegram.apci import DeviceDescriptorRead, GroupValueWrite
 
@@ -50,7 +50,7 @@ def run_hist(seed, n):
             ids = {}
 
             # every address has a device so that device processing is observable
-            for a in ADDR[1:]:
+            for a in ADDR[1:7]:
                 sw = Switch(xknx, "sw" + a, group_address=a)
                 sw.process = (lambda t: dev.append(1))
                 xknx.devices.async_add(sw)
@@ -85,7 +85,7 @@ def run_hist(seed, n):
                             den |= set(d)
                     if mode in ("addresses", "both"):
                         gs = rnd.sample(range(1, len(ADDR)), rnd.randrange(1, 3))
-                        gl = [parse_device_group_address(ADDR[g]) for g in gs]
+                        gl = [GroupAddress(0) if g == 7 else parse_device_group_address(ADDR[g]) for g in gs]
                         den |= set(gs)
                     if mode == "empty":
                         fl, gl = [], []
@@ -104,13 +104,13 @@ def run_hist(seed, n):
                         regs[k].address_filters.append(AddressFilter(f))
                     else:
                         g = rnd.randrange(1, len(ADDR))
-                        regs[k].group_addresses.append(parse_device_group_address(ADDR[g]))
+                        regs[k].group_addresses.append(GroupAddress(0) if g == 7 else parse_device_group_address(ADDR[g]))
                         d_ = [g]
                     ev.append(dict(base, ev="edit", k=k + 1, den=sorted(d_)))
                 else:
                     d = rnd.randrange(len(ADDR))
                     outgoing = rnd.random() < 0.4 and d != 0
-                    dst = IndividualAddress("1.2.3") if d == 0 else parse_device_group_address(ADDR[d])
+                    dst = IndividualAddress("1.2.3") if d == 0 else GroupAddress(0) if d == 7 else parse_device_group_address(ADDR[d])
                     called.clear()
                     dev.clear()
                     sendfail = 1 if outgoing and not ADDR[d].startswith("i-") and rnd.random() < 0.25 else 0
@@ -119,7 +119,7 @@ def run_hist(seed, n):
                                   direction=TelegramDirection.OUTGOING if outgoing else TelegramDirection.INCOMING)
                     xknx.telegrams.put_nowait(tg)
                     await asyncio.wait_for(xknx.telegrams.join(), 30)
-                    ev.append(dict(base, ev="tg", dst=d, outgoing=int(outgoing), fns=list(called), devices=1 if (dev or (d == 0 and not sendfail)) else 0,
+                    ev.append(dict(base, ev="tg", dst=d, outgoing=int(outgoing), fns=list(called), devices=1 if (dev or (d in (0, 7) and not sendfail)) else 0,
                                    sendfail=sendfail))
             await stop_xknx(xknx)
 
